@@ -1,0 +1,46 @@
+//! Child module of `config.rs` (feature `verif`): constructors for types with private fields.
+
+use super::{Config, Peers};
+use crate::PeerInfo;
+use miette::Result;
+use std::{path::PathBuf, time::Duration};
+
+pub fn peers(nodes: Vec<PeerInfo>) -> Peers {
+    Peers(nodes)
+}
+
+/// `quorum_sanity_check` as used when the configuration is loaded and whenever the peers change.
+pub fn quorum_sanity_check(quorum: Option<usize>, peers: &[PeerInfo]) -> Result<(usize, bool)> {
+    super::quorum_sanity_check(quorum, peers)
+}
+
+#[allow(clippy::too_many_arguments)]
+pub fn config(
+    node_id: &str,
+    heartbeat_min_timeout: u64,
+    raft_port: u16,
+    sync_port: u16,
+    quorum_configured: Option<usize>,
+    peer_nodes: &[PeerInfo],
+    priority: Option<i64>,
+    worterbuch_executable: &str,
+    data_dir: PathBuf,
+) -> Result<Config> {
+    let (quorum, quorum_too_low) = super::quorum_sanity_check(quorum_configured, peer_nodes)?;
+    Ok(Config {
+        node_id: node_id.to_owned(),
+        heartbeat_interval: Duration::from_millis(100),
+        heartbeat_min_timeout,
+        raft_port,
+        quorum,
+        quorum_too_low,
+        sync_port,
+        worterbuch_executable: worterbuch_executable.to_owned(),
+        stats_port: 0,
+        data_dir,
+        config_scan_interval: 5,
+        suicide_on_split_brain: true,
+        priority,
+        quorum_configured,
+    })
+}
